@@ -169,6 +169,38 @@ func c16TimeStrings(e *core.Env) int64 {
 			}
 		}
 	}
+	// every string up to five characters over an alphabet of the characters a time is made of, plus signs, blanks and dots
+	// (six characters: the leading "<" / trailing ">" forms): klog accepts exactly the literals of the specification
+	alpha := []byte("0159:+- .apm<>")
+	var buf [6]byte
+	var rec func(depth, length int)
+	rec = func(depth, length int) {
+		if depth == length {
+			lit := string(buf[:length])
+			n++
+			_, ok := ref.ParseTime(lit)
+			var err error
+			if p := core.Guard(func() { _, err = klog.NewTimeFromString(lit) }); p != nil {
+				e.Violation("time-parse-panic: "+p.Site(), fmt.Sprintf("time %q: panic %s", lit, p.Value), lit)
+				return
+			}
+			if ok != (err == nil) {
+				e.Violation("time-acceptance", fmt.Sprintf("time literal %q: klog accepted=%v, specification says %v", lit, err == nil, ok), lit)
+			}
+			return
+		}
+		for _, c := range alpha {
+			if length == 6 && (depth == 0 && c != '<' && c != '+' && c != '-' || depth == 5 && false) {
+				continue
+			}
+			buf[depth] = c
+			rec(depth+1, length)
+		}
+	}
+	for length := 1; length <= 6; length++ {
+		rec(0, length)
+	}
+	e.Count("short_strings_over_the_time_alphabet", n-132000)
 	// equality: literals denote the same value exactly when the offsets agree
 	offs := make([]int, 0, len(byValue))
 	for o := range byValue {
@@ -363,6 +395,38 @@ func c16TimeBlock(e *core.Env, k int) int64 {
 		wantText := ref.FormatTime(st) + " - " + ref.FormatTime(et)
 		if s := rg.ToString(); s != wantText {
 			e.Violation("range-tostring", fmt.Sprintf("range ToString()=%q, want %q", s, wantText), nil)
+		}
+		if (j*31+k)%97 == 0 {
+			// every combination of clock notations of the two times: each time keeps its own
+			for combo := 1; combo < 4; combo++ {
+				s12, e12 := combo&1 != 0, combo&2 != 0
+				ls, le := ref.FormatTime(ref.TimeV{Off: st.Off, H12: s12}), ref.FormatTime(ref.TimeV{Off: et.Off, H12: e12})
+				ts, err1 := klog.NewTimeFromString(ls)
+				te, err2 := klog.NewTimeFromString(le)
+				if err1 != nil || err2 != nil {
+					continue
+				}
+				n++
+				rm, rerr := klog.NewRange(ts, te)
+				if rerr != nil {
+					e.Violation("range-validity", fmt.Sprintf("range %s - %s rejected although its end is not before its start", ls, le), nil)
+					continue
+				}
+				if got := rm.ToString(); got != ls+" - "+le {
+					e.Violation("range-tostring", fmt.Sprintf("range of %q and %q prints %q: each time keeps its own clock notation", ls, le, got), nil)
+					continue
+				}
+				text := "2000-01-01\n    " + ls + "-" + le + "\n"
+				rs, _, errs := parser.NewSerialParser().Parse(text)
+				if errs != nil || len(rs) != 1 || len(rs[0].Entries()) != 1 {
+					e.Violation("range-roundtrip", fmt.Sprintf("range text %q-%q is not read back as one range entry", ls, le), text)
+					continue
+				}
+				en := rs[0].Entries()[0]
+				if back := klog.Unbox[string](&en, func(r klog.Range) string { return r.ToString() }, func(klog.Duration) string { return "<duration>" }, func(klog.OpenRange) string { return "<open range>" }); back != ls+"-"+le {
+					e.Violation("range-roundtrip", fmt.Sprintf("range text %q read from a file prints %q", ls+"-"+le, back), text)
+				}
+			}
 		}
 		if (j*31+k)%257 == 0 {
 			// full text round trip through the parser, both dash spacings
